@@ -343,6 +343,9 @@ func cpuTime() time.Duration {
 }
 
 // Measure runs f under the panic guard and reports process CPU time and heap bytes allocated during the call.
+// HeapAllocs is the cumulative number of heap bytes allocated by this process so far.
+func HeapAllocs() uint64 { return heapAllocs() }
+
 func Measure(f func()) (panicked bool, val any, frame string, cpu time.Duration, alloc uint64) {
 	a0, c0 := heapAllocs(), cpuTime()
 	panicked, val, frame, _ = Guard(f)
